@@ -155,6 +155,7 @@ type FnResult struct {
 }
 
 func newExec(w *World, fn *ssa.Function, key string, props []string, discover bool) *Exec {
+	wrapCounter = 0
 	x := &Exec{w: w, em: NewEmitter(), top: fn, trusted: map[string]bool{}, discover: discover,
 		loopMods: map[*ssa.BasicBlock]map[string]bool{}, strConst: map[string]string{}, sumFns: map[string]string{},
 		typeTags: map[string]int{}, ordinals: map[string]int{}, props: props, fnKey: key, sumInst: map[string]bool{},
